@@ -56,6 +56,16 @@ No interpretation happens here except:
     without a starred argument.  Such a call `g(a, k=v, **kwargs)` becomes a call of "g,k=,**" with the arguments
     [a; v; kwargs] (Python evaluates them in this order); what g does with the dictionary is the callee's affair
     (the templates give it by specification).
+  * (phase 5) a call whose callee is itself a call, `g(..)(args)` (`dispatch(fit_score, ..)(..)`), becomes a call of
+    "call" with the VALUE of g(..) as first argument (evaluated first, as in Python); a function of the same module
+    used as a value (`fit_score`) becomes the constant "<fn:fit_score>".
+  * (phase 5) `x.fit(args)` / `x.fit(*seq)` as a statement, x a PARAMETER other than self (MUTATING_METHODS: the
+    method changes its receiver and what it returns is dropped), becomes `x = mut:fit(x, args)`: the specification
+    "mut:fit" returns the receiver's new state.  Admitted only when x is never assigned and occurs in the function
+    only as the receiver of attribute accesses / method calls, as a direct positional argument of a call, or in
+    `return x` (no alias of the object can be created inside the function).  Such a call anywhere else than as a
+    statement is outside the fragment.
+  * (phase 5) `a, b = (e for x in it)`: unpacking consumes the generator at once - a list comprehension.
   * (phase 4) `x.extend(e)` as a statement, x a provably fresh un-escaped list, becomes `x = x + list(e)` (list
     concatenation; `zip(..)` is admitted for e: it is consumed at once).
   * (phase 4) stores THROUGH a fresh local object: a name bound to the result of a call in FRESH_OBJECT_CALLS
@@ -182,6 +192,8 @@ def is_stateful_call(node):
 
 # methods that change their (single) argument in place; calls made for their effect on the world
 MUTATING_ARG_METHODS = {"shuffle"}
+# methods that change the state of their RECEIVER and whose result is dropped when called as a statement
+MUTATING_METHODS = {"fit"}
 EFFECT_CALLS = {"warnings.warn"}
 # builtin classes used as values (warnings.warn(msg, UserWarning))
 CLASS_NAMES = ("UserWarning", "FutureWarning", "DeprecationWarning", "RuntimeWarning")
@@ -267,6 +279,9 @@ class Translator:
                 name = self.dotted(f)
                 if name is not None:
                     return "(ECallStar %s %s %s)" % (cstr(name), lst(args), star)
+                if (f.attr in MUTATING_METHODS and isinstance(f.value, ast.Name) and f.value.id != "self"
+                        and f.value.id in [a.arg for a in self.function.args.args]):
+                    raise Unsupported("state-changing call %s.%s inside an expression" % (f.value.id, f.attr))
                 return "(ECallStar %s %s %s)" % (cstr("meth:" + f.attr), lst([self.expr(f.value)] + args), star)
             raise Unsupported("callee of a call with * " + ast.dump(f)[:100])
         if (isinstance(f, ast.Name) and f.id in ("all", "any", "tuple", "list") and len(pos) == 1
@@ -315,6 +330,9 @@ class Translator:
                 # (a parameter that is called keeps its name as callee: it is fixed for the whole run)
                 return "(ECall %s %s)" % (cstr("call" + suffix), lst(["(EVar %s)" % cstr(f.id)] + args))
             return "(ECall %s %s)" % (cstr(f.id + suffix), lst(args))
+        if isinstance(f, ast.Call):
+            # g(..)(args): the value of g(..) is called ("call" by specification)
+            return "(ECall %s %s)" % (cstr("call" + suffix), lst([self.expr(f)] + args))
         if (isinstance(f, ast.Attribute) and isinstance(f.value, ast.Call) and isinstance(f.value.func, ast.Name)
                 and f.value.func.id == "super" and not f.value.args and not f.value.keywords):
             # super().m(args): the base class method applied to self (the proofs check the class's bases)
@@ -328,6 +346,9 @@ class Translator:
             if self.fresh_object(f.value):
                 raise Unsupported("method call on the local object %s inside an expression (it may change the object)"
                                   % f.value.id)
+            if (f.attr in MUTATING_METHODS and isinstance(f.value, ast.Name) and f.value.id != "self"
+                    and f.value.id in [a.arg for a in self.function.args.args] and not getattr(self, "in_stmt_call", False)):
+                raise Unsupported("state-changing call %s.%s inside an expression" % (f.value.id, f.attr))
             return "(ECall %s %s)" % (cstr("meth:" + f.attr + suffix), lst([self.expr(f.value)] + args))
         raise Unsupported("callee " + ast.dump(f)[:100])
 
@@ -369,6 +390,8 @@ class Translator:
                 return "(EConst (VS %s))" % cstr("<type:%s>" % e.id)    # a type object used as a value (dtype=bool)
             if e.id in CLASS_NAMES and e.id not in self.locals:
                 return "(EConst (VS %s))" % cstr("<class:%s>" % e.id)
+            if e.id in getattr(self, "module_functions", ()) and e.id not in self.locals:
+                return "(EConst (VS %s))" % cstr("<fn:%s>" % e.id)       # a function of the same module used as a value
             if e.id in getattr(self, "module_classes", ()) and e.id not in self.locals:
                 return "(EConst (VS %s))" % cstr("<class:%s>" % e.id)    # a class of the same module used as a value
             return "(EVar %s)" % cstr(e.id)
@@ -584,6 +607,37 @@ class Translator:
             return s.value.func.value.id, s.value.args[0]
         return None
 
+    def param_mut_call(self, s):
+        """x.fit(args) / x.fit(*seq) as a statement, x a parameter other than self -> (x, method, args, star or None)"""
+        if not (isinstance(s, ast.Expr) and isinstance(s.value, ast.Call) and isinstance(s.value.func, ast.Attribute)
+                and s.value.func.attr in MUTATING_METHODS and isinstance(s.value.func.value, ast.Name)):
+            return None
+        c = s.value
+        x = c.func.value.id
+        fn = self.function
+        pnames = [a.arg for a in fn.args.args]
+        if x not in pnames or x == "self":
+            return None
+        if c.keywords:
+            raise Unsupported("keywords in the state-changing call %s.%s" % (x, c.func.attr))
+        stars = [a for a in c.args if isinstance(a, ast.Starred)]
+        if stars and (len(stars) > 1 or c.args[-1] is not stars[0]):
+            raise Unsupported("* other than last in the state-changing call %s.%s" % (x, c.func.attr))
+        ok = set()
+        for n in ast.walk(fn):
+            if isinstance(n, ast.Attribute) and isinstance(n.value, ast.Name) and n.value.id == x:
+                ok.add(id(n.value))
+            elif isinstance(n, ast.Return) and isinstance(n.value, ast.Name) and n.value.id == x:
+                ok.add(id(n.value))
+            elif isinstance(n, ast.Call):
+                for a in n.args:
+                    if isinstance(a, ast.Name) and a.id == x:
+                        ok.add(id(a))
+        for n in ast.walk(fn):
+            if isinstance(n, ast.Name) and n.id == x and (id(n) not in ok or not isinstance(n.ctx, ast.Load)):
+                raise Unsupported("state-changing call %s.%s where %s may be aliased" % (x, c.func.attr, x))
+        return x, c.func.attr, [a for a in c.args if not isinstance(a, ast.Starred)], (stars[0].value if stars else None)
+
     def self_method_call(self, s):
         """self.m(args) as a statement (the method may mutate self: PyLite's SMethod, which rebinds self).
         Admitted only when `self` is the function's first parameter and no alias of it can exist: every
@@ -649,6 +703,12 @@ class Translator:
                 if len(uses) != 1 or nxt is None or uses[0] not in list(ast.walk(nxt)):
                     raise Unsupported("generator %s not consumed exactly once by the next statement" % x)
                 out.append("SAssign %s %s" % (lst([cstr(x)]), self.comp("CList", s.value.generators, s.value.elt)))
+                continue
+            if (isinstance(s, ast.Assign) and len(s.targets) == 1 and isinstance(s.targets[0], (ast.Tuple, ast.List))
+                    and isinstance(s.value, ast.GeneratorExp)):
+                # a, b = (e for x in it): the unpacking consumes the generator at once - a list comprehension
+                out.append("SAssign %s %s" % (lst([cstr(n) for n in target_names(s.targets[0])]),
+                                              self.comp("CList", s.value.generators, s.value.elt)))
                 continue
             if isinstance(s, ast.Expr) and isinstance(s.value, ast.Constant) and isinstance(s.value.value, str):
                 continue   # docstring / stray string
@@ -747,8 +807,17 @@ class Translator:
             elif isinstance(s, ast.Expr):
                 ap = self.append_call(s)
                 ex = self.extend_call(s)
-                sm = self.self_method_call(s) if ex is None else None
-                if ap is not None:
+                pm = self.param_mut_call(s)
+                sm = self.self_method_call(s) if ex is None and pm is None else None
+                if pm is not None:
+                    x, m, margs, star = pm
+                    margs_ = ["(EVar %s)" % cstr(x)] + [self.expr(a) for a in margs]
+                    if star is None:
+                        out.append("SAssign %s (ECall %s %s)" % (lst([cstr(x)]), cstr("mut:" + m), lst(margs_)))
+                    else:
+                        out.append("SAssign %s (ECallStar %s %s %s)" % (lst([cstr(x)]), cstr("mut:" + m), lst(margs_),
+                                                                        self.expr(star)))
+                elif ap is not None:
                     out.append("SAppend %s %s" % (cstr(ap[0]), self.expr(ap[1])))
                 elif ex is not None:
                     self.iterated.add(id(ex[1]))
@@ -1240,6 +1309,7 @@ def translate(path, names):
     tree = ast.parse(open(path).read())
     tr = Translator(imported_names(tree))
     tr.module_classes = {n.name for n in tree.body if isinstance(n, ast.ClassDef)}
+    tr.module_functions = {n.name for n in tree.body if isinstance(n, ast.FunctionDef)}
     found = {}
     defs_ = []
     for n in tree.body:
@@ -1307,7 +1377,20 @@ def translate(path, names):
                     tops = [b for b in n.body if isinstance(b, ast.Assign) and len(b.targets) == 1
                             and isinstance(b.targets[0], ast.Name) and b.targets[0].id == h
                             and isinstance(b.value, ast.Call)]
-                    if len(occ) != 1 or len(tops) != 1 or occ[0] is not tops[0].targets[0]:
+                    if len(occ) == 1 and len(tops) == 1 and occ[0] is tops[0].targets[0]:
+                        continue
+                    # or: bound in BOTH branches of one top-level `if` (the last statement of each branch), each
+                    # time to the result of a call, and nowhere else
+                    def last_bind(block):
+                        b = block[-1] if block else None
+                        if (isinstance(b, ast.Assign) and len(b.targets) == 1 and isinstance(b.targets[0], ast.Name)
+                                and b.targets[0].id == h and isinstance(b.value, ast.Call)):
+                            return b.targets[0]
+                        return None
+                    ifs = [b for b in n.body if isinstance(b, ast.If) and last_bind(b.body) is not None
+                           and last_bind(b.orelse) is not None]
+                    if not (len(occ) == 2 and len(ifs) == 1
+                            and {id(o) for o in occ} == {id(last_bind(ifs[0].body)), id(last_bind(ifs[0].orelse))}):
                         raise Unsupported("state-changing calls on %s, which is neither a parameter nor a local "
                                           "bound once to the result of a call and used for nothing else" % h)
             if len(tr.handles) > 1:
